@@ -323,6 +323,10 @@ def mutants(rng):
                               "&#x1F600", "&#X41;", "&#65536 ;", "&#1114112;"]), r, e, r)),
         ("dtd-badcharref-default", '<!DOCTYPE %s [<!ATTLIST %s a CDATA "a%sb">]><%s/>' % (
             r, r, rng.choice(["&#xFFFF;", "&#0;", "&#x110000;", "&#xD800;", "&#x;", "&#8;"]), r)),
+        ("dtd-charref-overflow-entity", '<!DOCTYPE %s [<!ENTITY %s "a%sb">]><%s>&%s;</%s>' % (
+            r, e, rng.choice(["&#4294967361;", "&#x100000041;", "&#8589934657;", "&#x10000000000000041;", "&#99999999999999999999;"]), r, e, r)),
+        ("dtd-charref-overflow-default", '<!DOCTYPE %s [<!ATTLIST %s a CDATA "%s">]><%s/>' % (
+            r, r, rng.choice(["&#4294967361;", "&#x100000041;", "&#x1000000000041;"]), r)),
         ("dtd-garbage-in-subset", '<!DOCTYPE %s [ x ]><%s/>' % (r, r)),
         ("dtd-element-in-subset", '<!DOCTYPE %s [ <b/> ]><%s/>' % (r, r)),
     ]
@@ -439,3 +443,87 @@ def ext_mutants(rng):
     out.append(("cond-include-in-internal-subset", '<!DOCTYPE %s [<![INCLUDE[ <!ENTITY a "b"> ]]>]><%s/>' % (r, r), {}))
     out.append(("cond-extpe-unterminated", '<!DOCTYPE %s [<!ENTITY %% e SYSTEM "p.ent"> %%e; ]><%s/>' % (r, r), {"p.ent": "<![IGNORE[ x ]>"}))
     return out
+
+
+# ---- markup / quote pairs split across internal general entities (XML 1.0 4.3.2: the replacement text of every entity
+#      must match `content` on its own).  The verdict and the events come from the extracted entity layer of the model.
+def gen_split(rng):
+    """returns (document text, [(name, replacement text)], body = the text from the root start tag on)"""
+    ents = []
+    kinds = {}
+
+    def have(k):
+        return [n for n, kk in kinds.items() if kk == k]
+
+    def add(kind, text):
+        n = "e%d" % len(ents)
+        ents.append((n, text))
+        kinds[n] = kind
+        return n
+    t = lambda: txt(rng).strip() or "t"
+    for _ in range(rng.choice([2, 3, 4, 6])):
+        k = rng.choice(["text", "bal", "open", "close", "ref", "openref", "quote", "elemattr", "tag-a", "tag-b",
+                        "cm-open", "cm-close", "cdata", "pi", "closeopen", "refclose", "self", "elemattr-safe"])
+        if k == "text":
+            add(k, t())
+        elif k == "bal":
+            add(k, rng.choice(["%s<b>%s</b>%s" % (t(), t(), t()), "<b/>", "<b x='1'>%s</b>" % t(), "<b><c/></b>" + t()]))
+        elif k == "open":
+            add(k, "<b>" + t())
+        elif k == "close":
+            add(k, t() + "</b>")
+        elif k == "closeopen":
+            add(k, "</b><b>")
+        elif k == "ref" and ents:
+            add(k, t() + "&" + rng.choice(ents)[0] + ";" + t())
+        elif k == "openref" and have("close"):
+            add(k, "<b>&" + rng.choice(have("close")) + ";")
+        elif k == "refclose" and have("open"):
+            add(k, "&" + rng.choice(have("open")) + ";</b>")
+        elif k == "quote":
+            add(k, rng.choice(["it's", 'say "x"', "'", '"', "a'b\"c"]))
+        elif k == "elemattr" and have("quote"):
+            q = rng.choice(["'", '"'])
+            add(k, "<e x=%s%s&%s; fine%s/>" % (q, t(), rng.choice(have("quote")), q))
+        elif k == "elemattr-safe" and have("text"):
+            add(k, "<e x='&%s;'>%s</e>" % (rng.choice(have("text")), t()))
+        elif k == "tag-a":
+            add(k, "<b")
+        elif k == "tag-b":
+            add(k, " x='1'>" + t() + "</b>")
+        elif k == "cm-open":
+            add(k, "<!--c")
+        elif k == "cm-close":
+            add(k, "d-->")
+        elif k == "cdata":
+            add(k, "<![CDATA[<z>&q;]]>")
+        elif k == "pi":
+            add(k, "<?p d?><!--k-->")
+        elif k == "self":
+            n = "e%d" % len(ents)
+            add(k, t() + "&" + n + ";")
+    if not ents:
+        add("text", t())
+    body = "<a"
+    names = [n for n, _ in ents]
+    for j in range(rng.choice([0, 0, 1, 2])):
+        q = rng.choice(["'", '"'])
+        body += " y%d=%s%s&%s;%s%s" % (j, q, t(), rng.choice(names), t(), q)
+    body += ">"
+    for _ in range(rng.choice([1, 2, 3, 5])):
+        r = rng.random()
+        n = rng.choice(names)
+        if r < 0.45:
+            body += "&" + n + ";"
+        elif r < 0.6:
+            body += t()
+        elif r < 0.75:
+            body += "<c>&" + n + ";</c>"
+        elif r < 0.85:
+            body += "<b>&" + n + ";"          # start tag here, end tag (if any) inside the entity
+        else:
+            body += "&" + n + ";</b>"         # start tag (if any) inside the entity, end tag here
+    body += "</a>"
+    doc = "<!DOCTYPE a [" + "".join("<!ENTITY %s %s>" % (n, ('"%s"' % v.replace('"', "&#34;")) if rng.random() < 0.5
+                                                         else ("'%s'" % v.replace("'", "&#39;"))) for n, v in ents) + "]>" + body
+    return doc, ents, body
